@@ -1,16 +1,17 @@
-\* thorough exhaustive: scripts <= 4 responses
+\* thorough, exhaustive over the wire: every http.Client configuration, every wire kind (redirect chains that convert / preserve
+\* the method, loops), several legal and illegal body spellings; 2 callers sharing one client, scripts <= 2 responses
 CONSTANTS
   Callers = {1, 2}
   MaxMult = 3
   Base = 1
   J = 2
-  MaxLen = 4
+  MaxLen = 2
   Record = FALSE
   Starts = {0, 1}
-  CtxChoices = {3, 9}
-  HCs = {"plain"}
-  WireRich = FALSE
-  Rich = TRUE
+  CtxChoices = {3}
+  HCs = {"nil", "plain", "follow", "limit", "jar", "timeout", "uselast", "refuse"}
+  WireRich = TRUE
+  Rich = FALSE
   Sim = FALSE
 INIT MCInit
 NEXT MCNext
